@@ -160,6 +160,21 @@ func TestC06(t *testing.T) {
 	}})
 }
 
+// C13: histories in which requests no protocol following shim would send are mixed into normal traffic
+func TestC13(t *testing.T) {
+	runWorld(t, worldCheck{prop: "C13", check: "C13/world", also: []string{"C03=>C13", "PANIC=>C13"}, profile: func() *harness.Profile {
+		p := mixedProfile()
+		p.Name = "hostile"
+		p.Opts.Hostile = true
+		p.Epilogue = false // the shim model does not know what the core made of a hostile request: no drain to zero
+		p.Weights = harness.With(harness.BaseWeights(), map[string]int{harness.OpHostile: 25, harness.OpReload: 0, harness.OpAddAsk: 16, harness.OpDecomNode: 2, harness.OpRemoveApp: 2})
+		p.GangProb, p.ReqNodeProb = 40, 10
+		return p
+	}, nonTriv: func(w *harness.World) bool {
+		return w.Tags["c13-hostile-in-busy-world"] > 0
+	}})
+}
+
 func TestC09(t *testing.T) {
 	runWorld(t, worldCheck{prop: "C09", check: "C09/world", profile: reserveProfile, nonTriv: func(w *harness.World) bool {
 		removedOther := 0
